@@ -211,6 +211,12 @@ private theorem Revoked.step {s : State} {c : Cid} (h : Revoked s c) (inv : Inv 
       · exact ⟨x, hx, hp⟩
   | actorExit k => exact hexit k
   | arrive k => exact ⟨x, hx, hp⟩
+  | enqueue k =>
+    refine ⟨x, ?_, hp⟩
+    simp only [C08.step]
+    split
+    · split <;> exact hx
+    · exact hx
   | actorStep k =>
     rcases actorStepWith_cases cancelArmFirst s k with h | ⟨h1, _, _, _⟩
     · rw [C08.step, C08.actorStep, h]; exact hexit k
@@ -319,6 +325,57 @@ theorem revoked_handles_nothing (s : State) (hs : Reachable s) (c : Cid) (x : Co
       · rw [hcl] at hzp; cases hzp
       · rw [hcan] at hzc
         exact absurd hzc (by decide)
+
+/-- REVOKED ⇒ NOTHING FURTHER IS DELIVERED.  After a disconnect request that finds the connection
+registered, its actor writes no further packet to its client — whatever is already in its
+outbound queue (`s.outq c` arbitrary), however many packets peers keep queueing for it while it
+is still registered (`enqueue c` ops in `ops`), under every schedule.  The cancellation arm comes
+first, and the exit path unregisters at once without draining the queue
+(`exitUnregistersAtOnce`, regenerated from the tail of `Actor::run`). -/
+theorem revoked_receives_nothing (s : State) (hs : Reachable s) (c : Cid) (x : Conn) (hx : s.conns c = some x)
+    (hreg : inRegistry s c = true) (sel : Option Cid) (hsel : Targets sel c) (ops : List Op) :
+    (runFrom (step s (.disconnect x.owner sel)) ops).delivered c = s.delivered c := by
+  have inv := Inv.of_reachable hs
+  have hmem : c ∈ s.entries x.owner := by simpa [inRegistry, hx] using hreg
+  obtain ⟨y, hy, hyp, _⟩ := inv.reg_of_mem _ c hmem
+  rw [hx] at hy; cases hy
+  have hhit : hit s x.owner sel c = true := by
+    rcases hsel with h | h <;> simp [hit, h, hmem]
+  have h1 : Revoked (step s (.disconnect x.owner sel)) c :=
+    ⟨{ x with cancelled := true }, by
+      rw [show C08.step s (.disconnect x.owner sel) = disconnect s x.owner sel from rfl,
+        disconnect_conns, hx, hhit]; simp, Or.inr ⟨hyp, rfl⟩⟩
+  have h0 : (step s (.disconnect x.owner sel)).delivered c = s.delivered c := by
+    show (disconnect s x.owner sel).delivered c = _
+    rw [disconnect_delivered]
+  suffices h : ∀ (ops : List Op) (t : State), Inv t → Revoked t c → (runFrom t ops).delivered c = t.delivered c by
+    rw [h ops _ (inv.step _) h1, h0]
+  intro ops
+  induction ops with
+  | nil => intro t _ _; rfl
+  | cons op ops ih =>
+    intro t it hr
+    show (runFrom (step t op) ops).delivered c = _
+    rw [ih _ (it.step op) (hr.step it op)]
+    rcases step_delivered t op c with h | ⟨_, z, hz, hzp, hzc⟩
+    · exact h
+    · obtain ⟨w, hw, hwp⟩ := hr
+      rw [hz] at hw; cases hw
+      rcases hwp with hcl | ⟨_, hcan⟩
+      · rw [hcl] at hzp; cases hzp
+      · rw [hcan] at hzc
+        exact absurd hzc (by decide)
+
+/-- The tail of `Actor::run` as the source has it (regenerated on every run). -/
+theorem source_exit_shape : Generated.C08.exitUnregistersAtOnce = true ∧ cancelArmFirst = true := ⟨rfl, rfl⟩
+
+/-- Why the exit path matters (model of an exit that first writes out the queue): a cancelled
+connection with a non-empty outbound queue would still be registered and still be delivered to —
+and as long as peers keep its queue non-empty it would never unregister. -/
+theorem drain_before_unregister_keeps_delivering (s : State) (c : Cid) (hq : 0 < s.outq c) :
+    (drainOne s c).delivered c = s.delivered c + 1 ∧ (drainOne s c).conns = s.conns ∧
+      (drainOne s c).entries = s.entries := by
+  simp [drainOne, hq]
 
 /-- Why the position of the cancellation arm matters (model of the arm moved to the end of the
 `biased` select): a registered connection whose token is cancelled and whose client has a frame
@@ -470,6 +527,7 @@ theorem others_unaffected (s : State) (id : Id) (ops : List Op) (hs : Inv s)
             refine ⟨x0, hx0, ?_⟩
             rw [hox, ← this]; split <;> rfl
       | arrive _ => exact absurd hop (by simp [RevocationStep])
+      | enqueue _ => exact absurd hop (by simp [RevocationStep])
       | actorExit c => exact hexit c hop
       | actorStep c =>
         rcases actorStepWith_cases cancelArmFirst t c with h | ⟨h1, h2, _, _⟩
@@ -528,6 +586,16 @@ example :
     let s := run [.request 7, .allow 0, .confirm 0 true, .register 0, .arrive 0, .arrive 0, .arrive 0, .actorStep 0]
     Reachable s ∧ inRegistry s 0 = true ∧ s.handled 0 = 1 ∧ s.inbox 0 = 2 ∧
       (runFrom (step s (.disconnect 7 (some 0))) [.actorStep 0, .arrive 0, .actorStep 0]).handled 0 = 1 := by
+  refine ⟨Reachable.runFrom .init _, ?_, ?_, ?_, ?_⟩ <;>
+    simp [run, runFrom, step, actorStep, actorStepWith, exitActor, advance, disconnect, cancel, init, setConn,
+      setEntry, inRegistry, removeConn]
+
+/-- `revoked_receives_nothing` applies to a connection with queued packets: before the request
+the actor writes them out one per iteration, after it none of the remaining or newly queued ones. -/
+example :
+    let s := run [.request 7, .allow 0, .confirm 0 true, .register 0, .enqueue 0, .enqueue 0, .enqueue 0, .actorStep 0]
+    Reachable s ∧ inRegistry s 0 = true ∧ s.delivered 0 = 1 ∧ s.outq 0 = 2 ∧
+      (runFrom (step s (.disconnect 7 none)) [.enqueue 0, .actorStep 0, .enqueue 0, .actorStep 0]).delivered 0 = 1 := by
   refine ⟨Reachable.runFrom .init _, ?_, ?_, ?_, ?_⟩ <;>
     simp [run, runFrom, step, actorStep, actorStepWith, exitActor, advance, disconnect, cancel, init, setConn,
       setEntry, inRegistry, removeConn]
